@@ -117,9 +117,22 @@ def undesc_terms(d):
 
 
 # ---------------------------------------------------------------------------------------------
-# Coq term text
+# Coq term text (short literals: q0 = 0, qz a b = a + b i for integers, full rationals otherwise)
+def qi(v):
+    v = complex(v)
+    if v == 0:
+        return "q0"
+    if v.real == int(v.real) and v.imag == int(v.imag):
+        return "(qz %s %s)" % (ct.z(int(v.real)), ct.z(int(v.imag)))
+    return ct.qi(v)
+
+
+def qimat(m):
+    return ct.lst([ct.lst([qi(c) for c in row]) for row in m])
+
+
 def cterm(pat, coeffs):
-    return ct.pair(ct.bits(pat), ct.lst([ct.qi(v) for v in np.asarray(coeffs).reshape(-1)]))
+    return ct.pair(ct.bits(pat), ct.lst([qi(v) for v in np.asarray(coeffs).reshape(-1)]))
 
 
 def cop(terms):
@@ -351,7 +364,7 @@ def run(ctx):
                     ctx.fail("lad:not-reference-jordan-wigner-matrix", {"kind": "car", "L": L, "i": i},
                              "I..I (x) |1><0| (x) Z..Z with the sign string on later sites", "differs")
                 if L <= 4 or (ctx.thorough or i in (0, L - 1)):
-                    add("CLad %s %s %s %s" % (ct.nat(L), ct.nat(i), ct.b(create), ct.qimat(M)),
+                    add("CLad %s %s %s %s" % (ct.nat(L), ct.nat(i), ct.b(create), qimat(M)),
                         {"kind": "ladder", "L": L, "i": i, "create": create})
 
     # ------------------------------------------------------------ operators
@@ -382,14 +395,14 @@ def run(ctx):
             ctx.fail("as_matrix:exception", d, "matrix", repr(e))
             continue
         nt = nontrivial(terms)
-        add("CMat %s %s %s" % (ct.nat(L), cop(terms), ct.qimat(M)), dict(d, op="as_matrix"), nt)
+        add("CMat %s %s %s" % (ct.nat(L), cop(terms), qimat(M)), dict(d, op="as_matrix"), nt)
         adj = W.terms_of(fop.adjoint())
         add("CAdj %s %s %s" % (ct.nat(L), cop(terms), cop(adj)), dict(d, op="adjoint"), nt)
         # the defining nested sums themselves, where they are cheap enough
         cost = sum((L ** len(p)) * (2 ** L) ** (max(len(p), 1) + 1) for p, _ in terms)
         if cost <= 40000:
             ctx.count("defining_sum_cases")
-            add("CMatDef %s %s %s" % (ct.nat(L), cop(terms), ct.qimat(M)), dict(d, op="as_matrix(definition)"), nt)
+            add("CMatDef %s %s %s" % (ct.nat(L), cop(terms), qimat(M)), dict(d, op="as_matrix(definition)"), nt)
 
     ctx.log("operators done: %d cases" % len(cases))
     # ------------------------------------------------------------ sums and products
